@@ -46,7 +46,7 @@ func TestVerifC09Kill(t *testing.T) {
 		rec.Inconclusive("no restic binary (VERIF_RESTIC_BIN)")
 		return
 	}
-	nHist := env.Pick(2, 5)
+	nHist := env.Pick(2, 4)
 	for hi := 0; hi < nHist; hi++ {
 		// every shard builds the same history (same PRNG stream) and judges its share of positions
 		rng := rec.RNG("killhist", hi)
